@@ -671,6 +671,10 @@ class _FuncAnalysis:
                     ok = f"dominated by `{atom}`"
                 if (not val) and atom in (f"{k} not in {base_text}",):
                     ok = f"dominated by not `{atom}`"
+                if val and atom in (f"{base_text}.get({k}) is not None",):
+                    ok = f"dominated by `{atom}` (a key whose value is not None is present)"
+                if (not val) and atom in (f"{base_text}.get({k}) is None",):
+                    ok = f"dominated by not `{atom}`"
             return self.site([("KeyError", f"mapping lookup on {bt or '?'}")], report, ok)
         if isinstance(idx, int) and not isinstance(idx, bool):
             # fixed tuples
